@@ -30,6 +30,12 @@ def generate(rng, tier):
         else:
             cases.append({"kind": "d", "T": T, "rate": rate, "accel": accel, "jerk": jerk, "acc": acc, "amb": amb, "family": fam})
         cases.append({"kind": "r", "T": T, "rate": rate, "accel": accel, "jerk": jerk, "amb": amb, "family": fam + "/rate"})
+        r = rng.random()
+        if r < 0.12:       # the same move evaluated a moment ago from another accumulator state / for another duration; arguments by keyword or not
+            cases[-2]["pre"] = [ebbgen.sibling_acc(rng, acc) for _ in range(rng.choice([1, 1, 2]))]; cases[-2]["kw"] = rng.choice([0, 1, 1, 2]); cases[-2]["family"] += "/after-sibling-call"
+            cases[-1]["preT"] = [rng.choice([1, 2, T + 1, max(1, T - 1), 2 * T])]; cases[-1]["kw"] = rng.choice([0, 2]); cases[-1]["family"] += "/after-sibling-call"
+        elif r < 0.22:
+            cases[-2]["kw"] = rng.choice([1, 2]); cases[-1]["kw"] = 2; cases[-2]["family"] += "/keyword-arguments"; cases[-1]["family"] += "/keyword-arguments"
     return cases
 
 def _clear(c):
@@ -37,18 +43,27 @@ def _clear(c):
     command line passes: equal to "clear" but a different object)"""
     return "clear" if (c["rate"] + c["accel"]) % 2 else "".join(("cle", "ar"))
 
+def _dist(c, acc_v, kw):
+    acc = _clear(c) if acc_v is None else acc_v
+    if acc_v is None and c["T"] % 3 == 0 and kw != 1: return ebbgen.call(ebb_calc.move_dist_t3, (c["T"], c["rate"], c["accel"], c["jerk"]), kw)      # argument omitted: the documented default is "clear"
+    return ebbgen.call(ebb_calc.move_dist_t3, (c["T"], c["rate"], c["accel"], c["jerk"], acc), kw)
+
 def run_impl(c):
     k, v = AMBIENT[c["amb"]]
+    kw = c.get("kw", 0)
     setattr(mpmath.mp, k, v)
     try:
         if c["kind"] == "r":
-            return {"rate": int(ebb_calc.rate_t3(c["T"], c["rate"], c["accel"], c["jerk"]))}
-        acc = _clear(c) if c["acc"] is None else c["acc"]
-        if c["acc"] is None and c["T"] % 3 == 0: p, a = ebb_calc.move_dist_t3(c["T"], c["rate"], c["accel"], c["jerk"])      # argument omitted: the documented default is "clear"
-        else: p, a = ebb_calc.move_dist_t3(c["T"], c["rate"], c["accel"], c["jerk"], acc)
+            for t0 in c.get("preT", []):
+                ebbgen.call(ebb_calc.rate_t3, (t0, c["rate"], c["accel"], c["jerk"]), kw)
+            return {"rate": int(ebbgen.call(ebb_calc.rate_t3, (c["T"], c["rate"], c["accel"], c["jerk"]), kw))}
+        for a0 in c.get("pre", []):
+            _dist(c, a0, kw); setattr(mpmath.mp, k, v)
+        p, a = _dist(c, c["acc"], kw)
         out = {"pos": int(p), "acc": int(a)}
         if c["kind"] == "z":
             setattr(mpmath.mp, k, v)
+            acc = _clear(c) if c["acc"] is None else c["acc"]
             lp, la = ebb_calc.move_dist_lt(c["rate"], c["accel"], c["T"], acc)
             out["lpos"], out["lacc"] = int(lp), int(la)
         return out
